@@ -275,6 +275,81 @@ func c02Check(c *Ctx, n gnode, count bool) {
 		}
 		c.Outcome(want)
 	}
+	if got == want && n.T == "stack" {
+		c02Reconfigure(c, n, count)
+	}
+}
+
+// c02Reconfigure starts from the already rendered tree (a non-initial state: whatever rendering left
+// behind is still there), flips one presentation flag of the root or of its first nested Stack with
+// the argument-free toggle form, renders again and compares with the reference for the changed
+// description; then flips it back and expects the first text again.
+func c02Reconfigure(c *Ctx, n gnode, count bool) {
+	type target struct {
+		path int // -1 root, else index of the nested stack
+	}
+	targets := []target{{-1}}
+	for i, k := range n.Kids {
+		if k.T == "stack" {
+			targets = append(targets, target{i})
+			break
+		}
+	}
+	flags := []struct {
+		name string
+		flip func(g *gnode)
+		call func(s stackage.Stack)
+	}{
+		{"SetFold()", func(g *gnode) { g.Fold = !g.Fold }, func(s stackage.Stack) { s.SetFold() }},
+		{"SetParen()", func(g *gnode) { g.Paren = !g.Paren }, func(s stackage.Stack) { s.SetParen() }},
+		{"SetNoPadding()", func(g *gnode) { g.NoPad = !g.NoPad }, func(s stackage.Stack) { s.SetNoPadding() }},
+		{"SetLeadOnce()", func(g *gnode) { g.Lonce = !g.Lonce }, func(s stackage.Stack) { s.SetLeadOnce() }},
+	}
+	size := len(n.String())
+	for _, tg := range targets {
+		for _, fl := range flags {
+			var texts [3]string
+			var wants [3]string
+			p := noPanic(func() {
+				root, _ := stackage.ConvertStack(n.build())
+				live := root
+				if tg.path >= 0 {
+					v, _ := root.Index(tg.path)
+					live, _ = stackage.ConvertStack(v)
+				}
+				mod := n
+				mod.Kids = append([]gnode{}, n.Kids...)
+				g := &mod
+				if tg.path >= 0 {
+					g = &mod.Kids[tg.path]
+				}
+				texts[0], wants[0] = root.String(), n.ref()
+				fl.call(live)
+				fl.flip(g)
+				texts[1], wants[1] = root.String(), mod.ref()
+				fl.call(live)
+				texts[2], wants[2] = root.String(), n.ref()
+			})
+			if count {
+				c.Evals.Add(2)
+				c.Transitions.Add(2)
+			}
+			where := "root"
+			if tg.path >= 0 {
+				where = fmt.Sprintf("nested stack #%d", tg.path)
+			}
+			if p != "" {
+				c.Violation("panic:after-toggle", fmt.Sprintf("rendering %s again after %s on the %s panicked: %s", n, fl.name, where, p), n, size)
+				return
+			}
+			for i := 1; i < 3; i++ {
+				if texts[i] != wants[i] {
+					c.Violation("render-after-toggle:"+fl.name, fmt.Sprintf("after rendering once and then %s x%d on the %s, String()=%q want %q for %s", fl.name, i, where, texts[i], wants[i], n), n, size)
+					return
+				}
+			}
+		}
+	}
 }
 
 // c02Class names the feature most likely involved, for stable violation keys.
